@@ -183,56 +183,75 @@ def check_z3(ctx) -> None:
                 f'ReservoirPressurePredictor signature changed: {f.args}')
     a = Rat.atom
     n_steps = a('project_lifetime_yr') * a('timesteps_per_year')
-    ctx.local_anchor(f, 'pressure')
-    init = [s for s in f.node.body if isinstance(s, ast.Assign) and norm(s.targets[0]) == 'pressure']
-    ok = len(init) == 1 and norm(init[0].value) in ('[initial_pressure_kPa] * project_lifetime_yr * timesteps_per_year',)
+    from gxstat.inline import inline_sequential
+    from gxstat.srcmodel import clone
+
+    def series_of(fn) -> str:
+        rs = {norm(r_.value) for r_ in ast.walk(fn.node) if isinstance(r_, ast.Return) and isinstance(r_.value, ast.Name)}
+        ctx.require(len(rs) == 1, f'{fn.name}: the returned series is not one local name ({sorted(rs)})')
+        return next(iter(rs))
+
+    S = series_of(f)
+    H = a('initial_pressure_kPa')
+    init = [s for s in f.node.body if isinstance(s, ast.Assign) and norm(s.targets[0]) == S]
+    ok = len(init) == 1 and norm(inline_sequential(init[0].value, init[0])) in ('[initial_pressure_kPa] * project_lifetime_yr * timesteps_per_year',)
     ctx.check(ok, 'Z3', 'ReservoirPressurePredictor/initialised-at-hydrostatic', f'{rel}:{init[0].lineno if init else f.node.lineno}',
               'the series is not initialised to the hydrostatic pressure over all time steps (elements after the floor keep this value)')
-    defs = {norm(s.targets[0]): s for s in f.node.body if isinstance(s, ast.Assign)}
-    for k in ('pressure[0]', 'delta_pressure', 'depletion_timesteps', 'pressure_change_per_timestep'):
-        ctx.require(k in defs, f'ReservoirPressurePredictor: `{k}` not found')
+    first = [s for s in f.node.body if isinstance(s, ast.Assign) and norm(s.targets[0]) == f'{S}[0]']
+    ctx.require(len(first) == 1, f'ReservoirPressurePredictor: `{S}[0]` not found')
+    first_v = inline_sequential(first[0].value, first[0])
 
-    def at(n):
-        if isinstance(n, ast.Subscript) and norm(n.value) == 'pressure':
-            return f'p[{norm(n.slice)}]'
+    n_calls: List[ast.Call] = []
+
+    def hook(T, call):
+        # the number of depletion steps is rounded once: int(<100 / rate x steps per year>)
+        if dotted_name(call.func) in ('int', 'round', 'math.floor') and len(call.args) == 1:
+            n_calls.append(call)
+            return Rat.atom('N_DEPLETION_STEPS')
         return None
 
-    def tr(x):
+    def tr(x, with_first=True):
+        """Translate with every local inlined; reads of S[0] are the value stored there."""
+        class P0(ast.NodeTransformer):
+            def visit_Subscript(self, n):
+                if isinstance(n.ctx, ast.Load) and norm(n.value) == S and norm(n.slice) == '0':
+                    return clone(first_v)
+                return self.generic_visit(n)
+        x = P0().visit(clone(x)) if with_first else x
         try:
-            return Translator(atom_of=at).tr(x)
+            return Translator(call_hook=hook).tr(x)
         except Unsupported as e:
             raise AnalysisError(str(e))
-    p0 = tr(defs['pressure[0]'].value)
-    ctx.check(p0.equals(a('initial_pressure_kPa') * a('overpressure_percentage') / Rat.const(100)), 'Z3', 'ReservoirPressurePredictor/start',
-              f'{rel}:{defs["pressure[0]"].lineno}', f'initial pressure is `{p0.show()}`, not hydrostatic x overpressure % / 100', fact='p[0] = hydrostatic * pct/100')
-    ctx.check(tr(defs['delta_pressure'].value).equals(a('p[0]') - a('initial_pressure_kPa')), 'Z3', 'ReservoirPressurePredictor/overpressure',
-              f'{rel}:{defs["delta_pressure"].lineno}', 'overpressure is not p[0] - hydrostatic')
-    dt = defs['depletion_timesteps'].value
-    okd = isinstance(dt, ast.Call) and dotted_name(dt.func) in ('int', 'round', 'math.floor') and len(dt.args) == 1 and \
-        tr(dt.args[0]).equals(Rat.const(100) / a('depletion_rate') * a('timesteps_per_year'))
-    ctx.check(okd, 'Z3', 'ReservoirPressurePredictor/depletion-duration', f'{rel}:{defs["depletion_timesteps"].lineno}',
-              f'the overpressure is spread over `{norm(dt)}` steps; at the stated rate (percent of the overpressure per year) it lasts '
-              f'(100 / rate) years x steps per year, rounded once', fact='int(100/rate * tspy)')
-    ctx.check(tr(defs['pressure_change_per_timestep'].value).equals(a('delta_pressure') / a('depletion_timesteps')), 'Z3',
-              'ReservoirPressurePredictor/step-size', f'{rel}:{defs["pressure_change_per_timestep"].lineno}', 'per-step change is not overpressure / steps')
+    p0 = tr(first_v, with_first=False)
+    P0v = H * a('overpressure_percentage') / Rat.const(100)
+    ctx.check(p0.equals(P0v), 'Z3', 'ReservoirPressurePredictor/start',
+              f'{rel}:{first[0].lineno}', f'initial pressure is `{p0.show()}`, not hydrostatic x overpressure % / 100', fact='p[0] = hydrostatic * pct/100')
     loops = [s for s in f.node.body if isinstance(s, ast.For)]
     ctx.require(len(loops) == 1, 'ReservoirPressurePredictor: one loop expected')
     lp = loops[0]
     t = norm(lp.target)
-    args = [tr(x) for x in lp.iter.args]
+    args = [tr(inline_sequential(x, lp)) for x in lp.iter.args]
     ctx.check(len(args) == 2 and args[0].equals(Rat.const(1)) and args[1].equals(n_steps), 'Z3', 'ReservoirPressurePredictor/steps-covered',
               f'{rel}:{lp.lineno}', f'time steps covered: range({", ".join(norm(x) for x in lp.iter.args)}); expected [1, lifetime x steps per year)')
-    st = [s for s in lp.body if isinstance(s, ast.Assign) and norm(s.targets[0]) == f'pressure[{t}]']
+    st = [s for s in lp.body if isinstance(s, ast.Assign) and norm(s.targets[0]) == f'{S}[{t}]']
     ctx.require(len(st) >= 1, 'ReservoirPressurePredictor: element assignment not found')
-    v = tr(st[0].value)
-    want = a('p[0]') - a('pressure_change_per_timestep') * a(t)
+    n_calls.clear()
+    v = tr(inline_sequential(st[0].value, st[0], cross_loops=True, keep=(S,)))
+    N = a('N_DEPLETION_STEPS')
+    want = P0v - (P0v - H) / N * a(t)
     ctx.check(v.equals(want), 'Z3', 'ReservoirPressurePredictor/decline', f'{rel}:{st[0].lineno}',
-              f'pressure at step t is `{v.show()}`; a monotone decline at the stated rate is p[0] - change x t (coefficient of t must be '
+              f'pressure at step t is `{v.show()}`; a monotone decline at the stated rate is p[0] - (p[0] - hydrostatic) / steps x t (coefficient of t must be '
               f'-overpressure/steps <= 0)', fact='p[t] = p[0] - (overpressure/steps) * t')
+    ctx.require(n_calls, 'ReservoirPressurePredictor: the rounded number of depletion steps was not found in the element formula (idiom changed)')
+    dt = n_calls[0]
+    okd = all(Translator().tr(c_.args[0]).equals(Rat.const(100) / a('depletion_rate') * a('timesteps_per_year')) for c_ in n_calls)
+    ctx.check(okd, 'Z3', 'ReservoirPressurePredictor/depletion-duration', f'{rel}:{dt.lineno}',
+              f'the overpressure is spread over `{norm(dt)}` steps; at the stated rate (percent of the overpressure per year) it lasts '
+              f'(100 / rate) years x steps per year, rounded once', fact='int(100/rate * tspy)')
     fl = [s for s in lp.body if isinstance(s, ast.If)]
-    okf = len(fl) == 1 and norm(fl[0].test) in (f'pressure[{t}] < initial_pressure_kPa', f'pressure[{t}] <= initial_pressure_kPa') and \
-        any(isinstance(s, ast.Assign) and norm(s.targets[0]) == f'pressure[{t}]' and norm(s.value) == 'initial_pressure_kPa' for s in fl[0].body) and \
-        fl[0].lineno > st[0].lineno
+    okf = len(fl) == 1 and norm(inline_sequential(fl[0].test, fl[0], cross_loops=True, keep=(S,))) in (f'{S}[{t}] < initial_pressure_kPa', f'{S}[{t}] <= initial_pressure_kPa') and \
+        any(isinstance(s, ast.Assign) and norm(s.targets[0]) == f'{S}[{t}]' and norm(inline_sequential(s.value, s, cross_loops=True, keep=(S,))) == 'initial_pressure_kPa'
+            for s in fl[0].body) and fl[0].lineno > st[0].lineno
     ctx.check(okf, 'Z3', 'ReservoirPressurePredictor/floor-at-hydrostatic', f'{rel}:{fl[0].lineno if fl else lp.lineno}',
               'after each update the pressure is not floored at the hydrostatic pressure')
     er = [s for s in f.node.body if isinstance(s, ast.If) and any(isinstance(x, ast.Return) for x in s.body)]
@@ -242,22 +261,29 @@ def check_z3(ctx) -> None:
     # injection predictor
     g = repo.function(WB, 'InjectionReservoirPressurePredictor')
     grel = g.module.rel
-    gd = {norm(s.targets[0]): s for s in g.node.body if isinstance(s, ast.Assign)}
-    ctx.require('pressure_change_per_timestep' in gd, 'InjectionReservoirPressurePredictor: step size not found')
-    ctx.check(tr(gd['pressure_change_per_timestep'].value).equals(a('inflation_rate') / a('timesteps_per_year')), 'Z3',
-              'InjectionReservoirPressurePredictor/step-size', f'{grel}:{gd["pressure_change_per_timestep"].lineno}', 'per-step rise is not rate / steps per year')
-    gl = [s for s in g.node.body if isinstance(s, ast.For)]
+    GS = series_of(g)
+    gl = [s for s in ast.walk(g.node) if isinstance(s, ast.For)]
     ctx.require(len(gl) == 1, 'InjectionReservoirPressurePredictor: one loop expected')
     tt = norm(gl[0].target)
-    gs = [s for s in gl[0].body if isinstance(s, ast.Assign) and norm(s.targets[0]) == f'pressure[{tt}]']
+    gs = [s for s in gl[0].body if isinstance(s, ast.Assign) and norm(s.targets[0]) == f'{GS}[{tt}]']
     ctx.require(len(gs) == 1, 'InjectionReservoirPressurePredictor: element assignment not found')
-    v = tr(gs[0].value)
-    ctx.check(v.equals(a('initial_pressure_kPa') + a('pressure_change_per_timestep') * a(tt)), 'Z3', 'InjectionReservoirPressurePredictor/rise',
+    try:
+        v = Translator().tr(inline_sequential(gs[0].value, gs[0], cross_loops=True, keep=(GS,)))
+    except Unsupported as e:
+        raise AnalysisError(str(e))
+    ctx.check(v.equals(a('initial_pressure_kPa') + a('inflation_rate') / a('timesteps_per_year') * a(tt)), 'Z3', 'InjectionReservoirPressurePredictor/rise',
               f'{grel}:{gs[0].lineno}', f'injection pressure at step t is `{v.show()}`; expected initial + (rate / steps per year) x t (rising)',
               fact='p[t] = initial + rate/tspy * t')
-    ga = [tr(x) for x in gl[0].iter.args]
+    ga = [Translator().tr(inline_sequential(x, gl[0])) for x in gl[0].iter.args]
     ctx.check(len(ga) == 2 and ga[0].equals(Rat.const(1)) and ga[1].equals(n_steps), 'Z3', 'InjectionReservoirPressurePredictor/steps-covered',
               f'{grel}:{gl[0].lineno}', 'not all time steps are covered')
+    # the loop runs unless the rate is zero (then the series stays at its initial value, which is the same formula at rate 0)
+    gg = [(norm(t_), pol) for t_, pol in guards_of(gl[0], g.node)]
+    early = [s for s in g.node.body if isinstance(s, ast.If) and any(isinstance(x, ast.Return) for x in s.body) and s.lineno < gl[0].lineno]
+    ok_g = all((txt in ('inflation_rate != 0', 'inflation_rate != 0.0') and pol) or (txt in ('inflation_rate == 0', 'inflation_rate == 0.0') and not pol) for txt, pol in gg) and \
+        all(norm(s.test) in ('inflation_rate == 0', 'inflation_rate == 0.0') for s in early)
+    ctx.check(ok_g, 'Z3', 'InjectionReservoirPressurePredictor/only-zero-rate-skips', f'{grel}:{gl[0].lineno}',
+              f'the rise is skipped under {gg or [norm(s.test) for s in early]}: only a zero rate may leave the series constant')
     # wiring in Calculate
     calc = repo.method('WellBores', 'Calculate', WB)
     cs = [c for c in calls_in(calc.node) if dotted_name(c.func) == 'ReservoirPressurePredictor']
